@@ -431,7 +431,7 @@ fn run(ctx: &mut Ctx) {
         }
     }
     let mut rng = ctx.rng(1);
-    let n = ctx.share(ctx.tier.pick(40_000, 6_000_000));
+    let n = ctx.share(ctx.tier.pick(500_000, 6_000_000));
     for k in 0..n {
         let mut cfg = Cfg::c17();
         cfg.plain_substitution_only = k % 20 < 17;
